@@ -8,6 +8,7 @@ import (
 	"math"
 	"os"
 	"reflect"
+	"regexp"
 	"runtime/debug"
 	"sort"
 	"strings"
@@ -18,6 +19,7 @@ import (
 	plruntime "github.com/GuanceCloud/platypus/pkg/engine/runtime"
 	"github.com/GuanceCloud/platypus/pkg/engine/runtimev2"
 	"github.com/GuanceCloud/platypus/pkg/errchain"
+	"github.com/GuanceCloud/platypus/pkg/inimpl/guancecloud/funcs"
 	"github.com/GuanceCloud/platypus/pkg/inimpl/guancecloud/input"
 	"github.com/GuanceCloud/platypus/pkg/parser"
 )
@@ -25,6 +27,7 @@ import (
 func init() {
 	register("ast-json", astJSON)
 	register("replay-machine", replayMachine)
+	register("host-typed-points", hostTypedPoints)
 }
 
 // progSet is one program set as written by the generators (bin/gen*.py).
@@ -38,6 +41,8 @@ type progSet struct {
 	MapOrders bool              `json:"maporders"`
 	Tag       string            `json:"tag"`     // free text: family / what it exercises
 	Without   []string          `json:"without"` // functions removed from the registered table (C08)
+
+	hostVal func() any // host-typed-points: every field of the input point holds this Go value instead
 }
 
 type ptIn struct {
@@ -356,6 +361,56 @@ func v2Table(o *runObs) map[string]*runtimev2.Fn {
 }
 
 // runOnce loads and runs a program set with the given signal schedule, under a watchdog.
+var identRe = regexp.MustCompile(`[A-Za-z_][A-Za-z0-9_]*`)
+var notVarNames = map[string]bool{"if": true, "elif": true, "else": true, "for": true, "in": true, "break": true, "continue": true, "true": true,
+	"false": true, "nil": true, "null": true, "nan": true, "inf": true, "probe": true, "pv": true, "one": true, "two": true, "void": true}
+var failedEarlierRuns int
+
+// failedEarlierRun: what an earlier, unrelated run of the process may have left behind.  A script that first assigns a variable of
+// every name the judged program mentions and then fails - inside a branch, inside a loop body, at top level, inside a callee -
+// is loaded and run on a point of its own, on the goroutine of the judged run and just before it.  Nothing of it may be seen by
+// the judged run (a run depends only on its script, its functions and its point): contexts, frames and registers that the
+// interpreters pool are then in the state a failed run leaves, not in their fresh state.
+func failedEarlierRun(ps *progSet) {
+	defer func() { _ = recover() }()
+	names := map[string]bool{}
+	for _, src := range ps.Scripts {
+		for _, n := range identRe.FindAllString(src, -1) {
+			if !notVarNames[strings.ToLower(n)] {
+				if _, fn := funcs.FuncsMap[n]; !fn {
+					names[n] = true
+				}
+			}
+		}
+	}
+	var b strings.Builder
+	for n := range names {
+		fmt.Fprintf(&b, "%s = \"stale-%s\"\n", n, n)
+	}
+	failedEarlierRuns++
+	tails := []string{"if true {\nzzq = 1 + nil\n}\n", "for zzi = 0; zzi < 2; zzi = zzi + 1 {\nzzq = 1 + nil\n}\n", "zzq = 1 + nil\n",
+		"for zzv in [1, 2] {\nif zzv {\nzzq = 1 + nil\n}\n}\n", "zzl = [1]\nif false {\n} elif true {\nfor ;; {\nzzq = zzl[5]\n}\n}\n"}
+	src := b.String() + tails[failedEarlierRuns%len(tails)]
+	o := &runObs{}
+	if ps.V2 {
+		if sc, err := engine.ParseV2("earlier.p", src, v2Table(o)); err == nil {
+			_ = sc.Run(o)
+		}
+		return
+	}
+	call, check := v1Tables(o)
+	scripts := map[string]string{"earlier.p": src}
+	if failedEarlierRuns%3 == 0 { // the failure happens in a callee
+		scripts = map[string]string{"earlier.p": b.String() + "if true {\nuse(\"earlier2.p\")\n}\n", "earlier2.p": src}
+	}
+	ok, _ := engine.ParseScript(scripts, call, check)
+	if sc := ok["earlier.p"]; sc != nil {
+		if pt, err := ps.Pt.build(); err == nil {
+			_ = sc.Run(pt, o)
+		}
+	}
+}
+
 func runOnce(ps *progSet, fireAt, budget int) runResult {
 	o := &runObs{fireAt: fireAt, budget: budget}
 	res := runResult{obs: o}
@@ -373,6 +428,9 @@ func runOnce(ps *progSet, fireAt, budget int) runResult {
 				res.loadErr = err
 				return
 			}
+			if fireAt == 0 {
+				failedEarlierRun(ps) // between the load and the run: nothing in between restores what the failed run left
+			}
 			res.err = sc.Run(o)
 			return
 		}
@@ -387,7 +445,21 @@ func runOnce(ps *progSet, fireAt, budget int) runResult {
 			res.loadErr = err
 			return
 		}
+		if ps.hostVal != nil {
+			f, _ := ps.Pt.goFields()
+			for k := range f {
+				f[k] = ps.hostVal()
+			}
+			tags := map[string]string{}
+			for k, v := range ps.Pt.Tags {
+				tags[k] = v
+			}
+			pt = input.InitPt(&input.Point{}, ps.Pt.Meas, tags, f, fixedTime)
+		}
 		res.pt = pt
+		if fireAt == 0 {
+			failedEarlierRun(ps) // between the load and the run: nothing in between restores what the failed run left
+		}
 		res.err = ok[ps.Main].Run(pt, o)
 	}()
 	select {
@@ -1105,6 +1177,71 @@ func init() { register("run-if-accepted", runIfAccepted) }
 // run-if-accepted <programs.ndjson>: "a script accepted at load time never crashes the host" for programs around the boundary of
 // acceptance. Every program is offered to the real loader; whatever the loader accepts - also what it should have rejected -
 // is run (under the panic guard and the watchdog, the signal firing after a poll budget). A panic or a hang is reported.
+// hostValues: Go values a host may put into a point's fields (the documented ones are int64, float64, bool, string, nil; the
+// constructor also converts the other integer widths and float32).  Whatever the type, a script reading, converting, indexing,
+// slicing, iterating, measuring or rewriting such a key must end with success or a script error.
+type hostStruct struct{ A int }
+
+var hostValues = []struct {
+	name string
+	mk   func() any
+}{
+	{"int", func() any { return int(7) }}, {"int8", func() any { return int8(-7) }}, {"int16", func() any { return int16(7) }}, {"int32", func() any { return int32(7) }},
+	{"uint", func() any { return uint(7) }}, {"uint8", func() any { return uint8(200) }}, {"uint16", func() any { return uint16(7) }},
+	{"uint32", func() any { return uint32(7) }}, {"uint64-max", func() any { return uint64(math.MaxUint64) }}, {"float32", func() any { return float32(1.5) }},
+	{"[]byte", func() any { return []byte("raw 12") }}, {"[]byte-empty", func() any { return []byte{} }}, {"[]byte-nil", func() any { return []byte(nil) }},
+	{"[]any", func() any { return []any{int64(1), "a"} }}, {"map[string]any", func() any { return map[string]any{"a": int64(1)} }},
+	{"[]string", func() any { return []string{"a"} }}, {"map[string]string", func() any { return map[string]string{"a": "b"} }},
+	{"time.Time", func() any { return fixedTime }}, {"duration", func() any { return time.Second }}, {"struct", func() any { return hostStruct{1} }},
+	{"*struct", func() any { return &hostStruct{1} }}, {"*struct-nil", func() any { return (*hostStruct)(nil) }}, {"*string-nil", func() any { return (*string)(nil) }},
+	{"json.Number", func() any { return json.Number("12") }}, {"error", func() any { return fmt.Errorf("e") }}, {"func", func() any { return func() {} }},
+	{"chan", func() any { return make(chan int) }}, {"complex", func() any { return complex(1, 2) }}, {"rune-slice", func() any { return []rune("ab") }},
+	{"NaN", func() any { return math.NaN() }}, {"+Inf", func() any { return math.Inf(1) }}, {"int64-min", func() any { return int64(math.MinInt64) }},
+	{"string-invalid-utf8", func() any { return "a\xffb" }}, {"string-nul", func() any { return "a\x00b" }}, {"string-long", func() any { return strings.Repeat("ab ", 5000) }},
+}
+
+// host-typed-points <progsets.ndjson> [-every N]: every (v1) program of the file on its point with every field holding each host value
+func hostTypedPoints(args []string) (any, error) {
+	sum := &Summary{Extra: map[string]any{}}
+	every := 1
+	if len(args) > 2 && args[1] == "-every" {
+		fmt.Sscan(args[2], &every)
+	}
+	hangs, runs, i := 0, 0, 0
+	err := readNDJSON(args[0], func(raw json.RawMessage) error {
+		var ps progSet
+		if err := json.Unmarshal(raw, &ps); err != nil {
+			return err
+		}
+		i++
+		if ps.V2 || hangs > 3 || len(ps.Pt.Fields) == 0 {
+			return nil
+		}
+		sum.Distinct++
+		for hi, hv := range hostValues {
+			if every > 1 && (i+hi)%every != 0 {
+				continue
+			}
+			ps.hostVal = hv.mk
+			sum.Evaluations++
+			runs++
+			res := runOnce(&ps, 1<<30, 400)
+			switch {
+			case res.panicV != "":
+				sum.miss("host-typed-point-panic:"+hv.name+":"+ps.Scripts[ps.Main], map[string]any{"scripts": ps.Scripts, "field_type": hv.name, "panic": res.panicV})
+			case res.hang:
+				hangs++
+				sum.miss("host-typed-point-hang:"+hv.name+":"+ps.Scripts[ps.Main], map[string]any{"scripts": ps.Scripts, "field_type": hv.name})
+			}
+		}
+		return nil
+	})
+	sum.Extra["runs"] = runs
+	sum.Extra["host_value_types"] = len(hostValues)
+	sum.sample(map[string]any{"runs": runs, "host_value_types": len(hostValues)})
+	return sum, err
+}
+
 func runIfAccepted(args []string) (any, error) {
 	sum := &Summary{Extra: map[string]any{}}
 	accepted, rejected := 0, 0
